@@ -2,6 +2,7 @@ package main
 
 import (
 	"fmt"
+	"regexp"
 	"go/types"
 	"math/big"
 	"sort"
@@ -49,7 +50,21 @@ type Leaf struct {
 
 func qual(p *types.Package) string { return p.Path() }
 
-func typeStr(t types.Type) string { return types.TypeString(t, qual) }
+var aliasRe = regexp.MustCompile(`\b(byte|rune)\b`)
+
+// typeStr is the canonical name of a type (byte/rune aliases are normalised so that []byte and []uint8 share heaps).
+func typeStr(t types.Type) string {
+	s := types.TypeString(t, qual)
+	if strings.Contains(s, "byte") || strings.Contains(s, "rune") {
+		s = aliasRe.ReplaceAllStringFunc(s, func(m string) string {
+			if m == "byte" {
+				return "uint8"
+			}
+			return "int32"
+		})
+	}
+	return s
+}
 
 // sanitize turns an arbitrary string into an SMT simple-symbol-safe fragment; we always quote with |..| anyway.
 func sym(s string) string {
